@@ -24,10 +24,10 @@ func init() {
 				Flavours: []string{"plain", "cover"},
 				Blocks:   16,
 				Procs:    16,
-				Rule: "exhaustive enumeration: Partition: every keep/drop mask for n <= 16 (20 thorough), on exact-size slices and on windows of a larger guard-filled buffer; Rotate: every n <= 400 (1300) and every k in [-n-2, n+2] plus far out-of-range k; every function with counts/offsets near the ends of the int range (MaxInt, MaxInt-1, 2^62, 2^31, MinInt); Chunks/Batches: every len <= 40 (96) x every n in [-1, len+3], on windows with spare capacity; Head/Tail: every len <= 12 x n in [0, len+3]; Stripe: row-length vectors over {0..3}^<=4 x i in [0,4]; At/PtrAt: every len <= 12 x i in [-len-3, len+3]. " +
+				Rule: "exhaustive enumeration: Partition: every keep/drop mask for n <= 16 (20 thorough), on exact-size slices and on windows of a larger guard-filled buffer; Rotate: every n <= 400 (1300) and every k in [-n-2, n+2] plus far out-of-range k; every function with counts/offsets near the ends of the int range (MaxInt, MaxInt-1, 2^62, 2^31, MinInt); Chunks/Batches: every len <= 40 (96) x every n in [-1, len+3], on windows with spare capacity; Head/Tail: every len <= 12 x n in [0, len+3]; Stripe: row-length vectors over {0..3}^<=4 x i in [0,4]; At/PtrAt: every len <= 12 x i in [-len-3, len+3]; Rotate/Partition/Chunks/Batches instantiated with 15 ordinary element types of every width (byte, named byte slice, int8, bool, uint16, rune, uint32, int, uint64, float32, float64, string, small arrays, interface) on slices of 0..9000 elements around 256, 512, 1024 and 4096 with shifts around 0, n/2, 256, 512 and n. " +
 					"Oracles: stable filter + permutation + append-does-not-clobber for Partition; element i moves to (i+k) mod n and out-of-range k panics for Rotate; concatenation by address, documented lengths/counts, append-does-not-clobber-a-later-subslice, no panic for allowed arguments (incl. empty slice) for Chunks/Batches; direct indexing for the rest. " +
 					"distinct = enumerated argument tuples; non-trivial = the call had a non-empty slice argument",
-				Required:     []string{"partition_masks", "rotate_cases", "chunks_cases", "batches_cases", "batches_of_empty", "head_tail_cases", "stripe_cases", "at_ptrat_cases", "expected_panics_seen", "extreme_argument_cases", "element_type_checks"},
+				Required:     []string{"partition_masks", "rotate_cases", "chunks_cases", "batches_cases", "batches_of_empty", "head_tail_cases", "stripe_cases", "at_ptrat_cases", "expected_panics_seen", "extreme_argument_cases", "element_type_checks", "typed_rotate_cases", "typed_partition_cases", "typed_element_sweeps"},
 				Exhaustive:   true,
 				Assumptions:  []string{"'capacity-clipped' is read as: appending to a returned subslice cannot overwrite an element outside it (so a single whole-input chunk may keep the input's capacity)"},
 				CoverPkgs:    []string{"github.com/creachadair/mds/slice"},
@@ -520,6 +520,31 @@ func runC17(c *fw.Ctx) {
 		}
 		c.Add("element_type_checks", 1)
 	}
+	if c.Begin(idx + 70 + c.Block) {
+		// ordinary element types of every width, large slices
+		mix := func(i int) int { return i*131 + i>>8 }
+		c17typed[byte, []byte](c, "byte", func(i int) byte { return byte(mix(i)) })
+		c17typed[byte, c17namedBytes](c, "byte (named slice type)", func(i int) byte { return byte(mix(i)) })
+		c17typed[int8, []int8](c, "int8", func(i int) int8 { return int8(mix(i)) })
+		c17typed[bool, []bool](c, "bool", func(i int) bool { return mix(i)%3 == 0 })
+		c17typed[uint16, []uint16](c, "uint16", func(i int) uint16 { return uint16(i) })
+		c17typed[rune, []rune](c, "rune", func(i int) rune { return rune(i) })
+		c17typed[uint32, []uint32](c, "uint32", func(i int) uint32 { return uint32(i) })
+		c17typed[int, []int](c, "int", func(i int) int { return i })
+		c17typed[uint64, []uint64](c, "uint64", func(i int) uint64 { return uint64(i) << 33 })
+		c17typed[float64, []float64](c, "float64", func(i int) float64 { return float64(i) + 0.5 })
+		c17typed[float32, []float32](c, "float32", func(i int) float32 { return float32(i) })
+		c17typed[string, []string](c, "string", func(i int) string { return fmt.Sprint("s", i) })
+		c17typed[[3]byte, [][3]byte](c, "[3]byte", func(i int) [3]byte { return [3]byte{byte(i), byte(i >> 8), 7} })
+		c17typed[[2]string, [][2]string](c, "[2]string", func(i int) [2]string { return [2]string{fmt.Sprint(i), "x"} })
+		c17typed[any, []any](c, "any", func(i int) any {
+			if i%2 == 0 {
+				return i
+			}
+			return fmt.Sprint(i)
+		})
+		c.Add("typed_element_sweeps", 15)
+	}
 	idx += 100
 	// Head/Tail, At/PtrAt
 	for ln := c.Block; ln <= 12; ln += c.NBlocks {
@@ -577,3 +602,128 @@ func runC17(c *fw.Ctx) {
 		}
 	}
 }
+
+// c17typed checks Rotate, Partition, Chunks and Batches for one ordinary
+// element type on slices up to well past 256, 512 and 4096 elements: a path
+// specialised for an element type or width, with its own size thresholds,
+// must obey the same rules as the generic one.
+func c17typed[T comparable, S ~[]T](c *fw.Ctx, name string, mk func(i int) T) {
+	sizes := []int{0, 1, 2, 3, 5, 8, 16, 17, 31, 33, 64, 100, 255, 256, 257, 258, 300, 511, 512, 513, 514, 515, 600, 700, 1023, 1024, 1025, 2000, 4095, 4096, 4097, 5000, 9000}
+	for si, n := range sizes {
+		if si%c.NBlocks != c.Block%c.NBlocks && n > 64 {
+			continue
+		}
+		orig := make(S, n)
+		for i := range orig {
+			orig[i] = mk(i)
+		}
+		ks := map[int]bool{}
+		for _, k := range []int{0, 1, 2, 3, n / 2, n/2 - 1, n/2 + 1, n / 3, 255, 256, 257, 258, 300, 511, 512, 513, n - 1, n - 2, n - 255, n - 256, n - 257, n - 258, n - 300, n - 513, n} {
+			if k >= 0 && k <= n {
+				ks[k], ks[-k] = true, true
+			}
+		}
+		for k := range ks {
+			vs := append(S(nil), orig...)
+			data := map[string]any{"func": "Rotate", "element_type": name, "n": n, "k": k}
+			ok, pv, stack := fw.Try(func() { slice.Rotate(vs, k) })
+			if !ok {
+				c.FailKind("panic", data, "Rotate panicked for k inside [-n, n]: %v\n%s", pv, stack)
+				return
+			}
+			for i := 0; i < n; i++ {
+				to := ((i+k)%n + n) % n
+				if vs[to] != orig[i] {
+					c.Fail(data, "Rotate: the element originally at index %d is not at index %d", i, to)
+					return
+				}
+			}
+			c.Add("typed_rotate_cases", 1)
+		}
+		// Partition: stable filter by value, whole slice a permutation
+		for _, mod := range []int{2, 3, 7} {
+			vs := append(S(nil), orig...)
+			idx := map[T]int{}
+			for i, v := range orig {
+				if _, ok := idx[v]; !ok {
+					idx[v] = i
+				}
+			}
+			pred := func(v T) bool { return idx[v]%mod == 0 }
+			var want S
+			count := map[T]int{}
+			for _, v := range orig {
+				count[v]++
+				if pred(v) {
+					want = append(want, v)
+				}
+			}
+			data := map[string]any{"func": "Partition", "element_type": name, "n": n, "keep": fmt.Sprintf("first index of the value %% %d == 0", mod)}
+			var got S
+			ok, pv, stack := fw.Try(func() { got = slice.Partition(vs, pred) })
+			if !ok {
+				c.FailKind("panic", data, "Partition panicked: %v\n%s", pv, stack)
+				return
+			}
+			if len(got) != len(want) {
+				c.Fail(data, "Partition kept %d elements, the predicate accepts %d", len(got), len(want))
+				return
+			}
+			for i := range got {
+				if got[i] != want[i] {
+					c.Fail(data, "Partition: kept element %d differs from the stable filter", i)
+					return
+				}
+			}
+			for _, v := range vs {
+				count[v]--
+			}
+			for _, n := range count {
+				if n != 0 {
+					c.Fail(data, "Partition left the slice no permutation of its original contents")
+					return
+				}
+			}
+			c.Add("typed_partition_cases", 1)
+		}
+		// Chunks / Batches: concatenation and lengths
+		for _, m := range []int{1, 2, 3, 255, 256, 257, n/2 + 1, n, n + 1} {
+			if m <= 0 {
+				continue
+			}
+			var cat S
+			chs := slice.Chunks(orig, m)
+			for i, ch := range chs {
+				if i < len(chs)-1 && len(ch) != m {
+					c.Fail(map[string]any{"func": "Chunks", "element_type": name, "n": n, "m": m}, "chunk %d has length %d", i, len(ch))
+					return
+				}
+				cat = append(cat, ch...)
+			}
+			var catb S
+			bs := slice.Batches(orig, m)
+			lo, hi := n, 0
+			for _, b := range bs {
+				lo, hi = min(lo, len(b)), max(hi, len(b))
+				catb = append(catb, b...)
+			}
+			if len(bs) != min(m, n) || (len(bs) > 0 && hi-lo > 1) {
+				c.Fail(map[string]any{"func": "Batches", "element_type": name, "n": n, "m": m}, "Batches returned %d batches with lengths between %d and %d", len(bs), lo, hi)
+				return
+			}
+			if len(cat) != n || len(catb) != n {
+				c.Fail(map[string]any{"func": "Chunks/Batches", "element_type": name, "n": n, "m": m}, "concatenation has %d / %d of %d elements", len(cat), len(catb), n)
+				return
+			}
+			for i := range orig {
+				if cat[i] != orig[i] || catb[i] != orig[i] {
+					c.Fail(map[string]any{"func": "Chunks/Batches", "element_type": name, "n": n, "m": m}, "concatenation differs from the input at index %d", i)
+					return
+				}
+			}
+		}
+		c.Step()
+	}
+}
+
+type c17namedBytes []byte
